@@ -182,6 +182,24 @@ pub fn run(a: &Args) {
         let chunks = vec![ihdr(2, 2, 8, 0, 0), Chunk::new(b"IDAT", zlib_stored(&[0, 1, 2, 0, 3, 4], 6)), Chunk::new(b"tEXt", d), Chunk::new(b"IEND", vec![])];
         files.push(("big-text-after-idat".into(), assemble(&chunks)));
     }
+    // the stream machine on prefixes and on prefix-then-rest, against the extracted model (the byte-level theorems of Props/C05.v are about this model)
+    for (name, bytes) in files.iter().filter(|(_, b)| b.len() <= 600).take(if thorough { 120 } else { 14 }) {
+        let ncuts = if thorough { 12 } else { 4 };
+        for _ in 0..ncuts {
+            let cut = rng.range(1, bytes.len() as u64 - 1) as usize;
+            let opts = Opts::default();
+            // the prefix alone
+            let r = crate::streamrun::run_l0(&[bytes[..cut].to_vec()], opts, None);
+            o.case(&format!("l0 {} {} 0 {}", opts.bits(), 67108864u64, hex(&bytes[..cut])), &crate::c04::strip_d(&r.text), &format!("prefix-{}-{}", name.len() % 7, cut % 13), cut > 33);
+            if r.text.contains("END=ERR") {
+                o.violation(viol("format-error-on-truncated-input", vec![("file", jstr(name)), ("cut", cut.to_string()), ("bytes", jstr(&hex(bytes))), ("l0", jstr(&r.text.chars().take(600).collect::<String>()))]));
+            }
+            // the prefix, then the rest
+            let r2 = crate::streamrun::run_l0(&[bytes[..cut].to_vec(), bytes[cut..].to_vec()], opts, None);
+            o.case(&format!("l0 {} {} {},{} {}", opts.bits(), 67108864u64, cut, bytes.len(), hex(bytes)), &crate::c04::strip_d(&r2.text), &format!("resume-{}-{}", name.len() % 7, cut % 13), true);
+            o.count("l0.prefix-cases");
+        }
+    }
     for (name, bytes) in &files {
         o.count("files");
         let big = bytes.len() > 5000;
